@@ -144,7 +144,7 @@ fn worker_run(args: &[String]) -> i32 {
                 }
                 if let Err(why) = verdict {
                     if fails.len() < 2 {
-                        fails.push(json!({"e": o["e"], "t": o["t"], "y": o["y"], "why": why, "text": rendered.script,
+                        fails.push(json!({"e": o["e"], "t": o["t"], "y": o["y"], "tag": o["tag"], "why": why, "text": rendered.script,
                             "flags": rendered.flags, "stdin": rendered.via_stdin,
                             "expected": {"tr": o["tr"], "st": exp_st}, "observed": obs_json(&obs)}));
                     }
@@ -427,6 +427,7 @@ fn main() {
         std::process::exit(2);
     }
     let rest = &args[2..];
+    exec::TICK_LIMIT.store(opt_usize(rest, "--tick", 2) as i64, std::sync::atomic::Ordering::Relaxed);
     let code = match args[1].as_str() {
         "run" => cmd_run(rest),
         "random" => cmd_random(rest),
